@@ -542,6 +542,53 @@ func (e *Engine) ownProof() *UnitResult {
 		}
 		add(label, a.pos, ok, why)
 	}
+	// local variables captured by reference by a goroutine and assigned by the
+	// spawner in a loop that contains the go statement (the per-loop variable of
+	// Go < 1.22, or any variable re-assigned while the goroutine may read it)
+	var fnames []string
+	for n := range e.funcs {
+		fnames = append(fnames, n)
+	}
+	sort.Strings(fnames)
+	for _, n := range fnames {
+		fn := e.funcs[n]
+		for _, b := range fn.Blocks {
+			for _, in := range b.Instrs {
+				g, ok := in.(*ssa.Go)
+				if !ok {
+					continue
+				}
+				mc, ok := g.Call.Value.(*ssa.MakeClosure)
+				if !ok {
+					continue
+				}
+				for bi, bind := range mc.Bindings {
+					al, ok := bind.(*ssa.Alloc)
+					if !ok {
+						continue
+					}
+					// stores to the variable that can execute after the go statement:
+					// a store in a block from which the go block is reachable again
+					// (same loop), or in a block reachable from the go block
+					raced := ""
+					for _, ref := range *al.Referrers() {
+						st, ok := ref.(*ssa.Store)
+						if !ok || st.Addr != al {
+							continue
+						}
+						if reachable(b, st.Block()) && (st.Block() != b || instrIndex(st) > instrIndex(in) || reachableViaSucc(b, b)) {
+							raced = e.pos(st.Pos())
+						}
+					}
+					fvn := "?"
+					if cf, ok := mc.Fn.(*ssa.Function); ok && bi < len(cf.FreeVars) {
+						fvn = cf.FreeVars[bi].Name()
+					}
+					add(fmt.Sprintf("variable %s captured by the goroutine started in %s is not assigned while the goroutine may run", fvn, n), e.pos(g.Pos()), raced == "", fmt.Sprintf("variable %s is captured by reference by the goroutine and assigned again at %s (before Go 1.22 a loop variable is one variable for all iterations)", fvn, raced))
+				}
+			}
+		}
+	}
 	// package-level variables that are assigned after initialisation
 	var gnames []string
 	for n := range e.spkg.Members {
@@ -697,4 +744,41 @@ func (e *Engine) modelProof() *UnitResult {
 	sort.SliceStable(vc.obligs, func(i, j int) bool { return vc.obligs[i].Name < vc.obligs[j].Name })
 	vc.note("error-tree model: package error types are leaves; wrapping only by fmt.Errorf(%w) and errors.Join (obligations of model:errors)")
 	return res
+}
+
+func instrIndex(in ssa.Instruction) int {
+	for i, x := range in.Block().Instrs {
+		if x == in {
+			return i
+		}
+	}
+	return -1
+}
+
+// reachable: is block `to` reachable from block `from` by one or more... zero or more edges.
+func reachable(from, to *ssa.BasicBlock) bool {
+	if from == to {
+		return true
+	}
+	return reachableViaSucc(from, to)
+}
+
+// reachableViaSucc: reachable by at least one edge.
+func reachableViaSucc(from, to *ssa.BasicBlock) bool {
+	seen := map[*ssa.BasicBlock]bool{}
+	var stack []*ssa.BasicBlock
+	stack = append(stack, from.Succs...)
+	for len(stack) > 0 {
+		b := stack[len(stack)-1]
+		stack = stack[:len(stack)-1]
+		if seen[b] {
+			continue
+		}
+		seen[b] = true
+		if b == to {
+			return true
+		}
+		stack = append(stack, b.Succs...)
+	}
+	return false
 }
